@@ -49,7 +49,14 @@ MANIFEST = {
              "BannedConnectRefused. A second configuration takes a BanPeer call step by step (ban write held by a "
              "proxy ban store, the environment dials / handshakes / drops in the window, then the write commits and "
              "the deferred disconnect runs); after a divergence the remaining inputs are still applied and the "
-             "system is driven to quiescence before NoConnectionToBanned is judged.",
+             "system is driven to quiescence before NoConnectionToBanned is judged. A third configuration "
+             "(enforce-skew) adds the client's network-adjusted clock as an environment dimension: the ChainService's "
+             "median time source is fed, before the history, with version timestamps of peers whose clocks are off by "
+             "-1 h / +1 h (and the history's peers stamp their version messages likewise), BanDuration is 30 min, and "
+             "StoreBan actions put ban records with half an hour left / lapsed half an hour ago / a day left into the "
+             "store; ChainService.IsBanned is judged after every step against the ideal set of banned IPs kept by the "
+             "property module (IsBannedUntilLapse, IsBannedNotAfterLapse), and the connection clauses count an address "
+             "as banned when the ideal says so, whatever IsBanned answers.",
         note="Bounded: store <=5 address classes, 3 spelling groups, 2 reasons, clock 0..3; enforcement <=3 connection "
              "slots, 2 IPs x 2 ports, 6 actions per history (the replayed graph has cycles, paths are longer). "
              "Assumes: expiries are whole Unix seconds, queries in the wall-clock second of a nominal expiry are never "
@@ -69,7 +76,8 @@ MANIFEST = {
 
 STORE_PROPS = ["BannedUntilLapse", "RecordedReason", "NotBannedAfterLapse", "NotBannedAfterUnban",
                "SameRecordEverySpelling", "ReopenPreserves", "EveryFormAccepted"]
-ENF_PROPS = ["NoServicePeerBanned", "MisbehavingPeerBanned", "NoConnectionToBanned", "BannedConnectRefused"]
+ENF_PROPS = ["NoServicePeerBanned", "MisbehavingPeerBanned", "NoConnectionToBanned", "BannedConnectRefused",
+             "IsBannedUntilLapse", "IsBannedNotAfterLapse"]
 PROPS = {"C13": STORE_PROPS + ENF_PROPS}
 
 CODE_VERSION = json.load(open(os.path.join(SPEC, "code_version.json")))
@@ -77,13 +85,21 @@ STORE_SWITCHES = {k: CODE_VERSION[k] for k in ("FixWideMask",)}
 ENF_SWITCHES = {k: CODE_VERSION[k] for k in ("FixBanAllOfHost",)}
 
 ENF_CONFIGS = {
-    "quick": dict(NP=2, NI=2, NJ=2, MaxOps=6, Split=False),
-    "thorough": dict(NP=3, NI=2, NJ=2, MaxOps=6, Split=False),
+    "quick": dict(NP=2, NI=2, NJ=2, MaxOps=6, Split=False, Offs="{0}", StoreBans=False),
+    "thorough": dict(NP=3, NI=2, NJ=2, MaxOps=6, Split=False, Offs="{0}", StoreBans=False),
 }
+# the client's network-adjusted clock (timeSource) is off by -1 / 0 / +1 hour because its peers' clocks are;
+# neutrino.BanDuration = 30 min in the driver process; ban records of an earlier run (lapsed 30 min ago,
+# 30 min left, a day left) in the store
+SKEW_CONFIGS = {
+    "quick": dict(NP=2, NI=1, NJ=2, MaxOps=5, Split=False, Offs="{1,2}", StoreBans=True),
+    "thorough": dict(NP=2, NI=2, NJ=2, MaxOps=6, Split=False, Offs="{0,1,2}", StoreBans=True),
+}
+SKEW_ENV = {"VERIF_BAN_MINUTES": "30"}
 # BanPeer taken step by step (ban write held, environment moves in the window, write commits)
 WINDOW_CONFIGS = {
-    "quick": dict(NP=2, NI=1, NJ=2, MaxOps=7, Split=True),
-    "thorough": dict(NP=3, NI=1, NJ=2, MaxOps=7, Split=True),
+    "quick": dict(NP=2, NI=1, NJ=2, MaxOps=7, Split=True, Offs="{0}", StoreBans=False),
+    "thorough": dict(NP=3, NI=1, NJ=2, MaxOps=7, Split=True, Offs="{0}", StoreBans=False),
 }
 
 STORE_CONFIGS = {
@@ -112,6 +128,10 @@ ASSUMPTIONS = [
     "is live, 'not banned' is not judged for the covered addresses",
     "a class is one address / one network; spellings of a network vary the text of its base address only, with "
     "the mask given in the network's own address family",
+    "enforcement parts: whether a ban has lapsed is a matter of real (system) time - the store records an absolute "
+    "expiry and compares it with time.Now(); every ban placed there is at least 28 minutes away from its expiry on "
+    "either side (24 h, 30 min +- 2 min, -30 min +- 2 min), so no ban lapses while a trace runs and the ideal set of "
+    "banned IPs only changes by the logged actions",
 ]
 
 
@@ -129,6 +149,8 @@ def label(act):
             return "%s(i%d,j%d,k%d)=%s" % (op, act["i"], act["j"], act["k"], res)
         if op == "Unban":
             return "Unban(i%d)=%s" % (act["i"], res)
+        if op == "StoreBan":
+            return "StoreBan(i%d,d%d,k%d)=%s" % (act["i"], act["f"], act["k"], res)
         return "%s=%s" % (op, res)
     if act.get("k", -1) >= 0:     # two concurrent callers
         second = {"op": act["op2"], "c": act["c2"], "g": act["g2"], "d": act["d2"], "r": act["r2"],
@@ -234,7 +256,7 @@ def _store_part(name, consts, tier, seed, rng, sc, binary, walks=0, depth=0, max
     return part
 
 
-def _enf_part(name, consts, tier, seed, rng, sc, binary, walks=0, depth=0):
+def _enf_part(name, consts, tier, seed, rng, sc, binary, walks=0, depth=0, env=None):
     part = _Part(name)
     consts = dict(consts)
     consts.update(ENF_SWITCHES)
@@ -254,7 +276,7 @@ def _enf_part(name, consts, tier, seed, rng, sc, binary, walks=0, depth=0):
     core.write_paths(part.g, part.paths, pf)
     t1 = time.time()
     part.observed, _ = family.run_driver(binary, "TestVerifBanEnforceReplay", pf, os.path.join(wd, "obs.ndjson"),
-                                         wd, env_extra={"VERIF_SEED": str(seed), "VERIF_PAR": "64"})
+                                         wd, env_extra=dict({"VERIF_SEED": str(seed), "VERIF_PAR": "64"}, **(env or {})))
     part.driver_wall = time.time() - t1
     for t in part.observed:
         t["part"] = name
@@ -326,6 +348,8 @@ def run(prop_id, tier, seed, replay=None):
             else:
                 binary = family.build_overlay_test(PKG_ENF, [DRIVER_ENF], os.path.join(sc, "neutrino.test"))
                 test, props_mod, names = "TestVerifBanEnforceReplay", "BanEnforceProps", ENF_PROPS
+                if which == "enforce-skew":
+                    env.update(SKEW_ENV)
             part.observed, _ = family.run_driver(binary, test, pf, os.path.join(sc, "obs.ndjson"), sc, env_extra=env)
             for t in part.observed:
                 t["part"] = which
@@ -346,14 +370,16 @@ def run(prop_id, tier, seed, replay=None):
                     lambda: _enf_part("enforce-window", WINDOW_CONFIGS[tier], tier, seed, rng, sc, enf_bin,
                                       walks=1000 if thorough else 0, depth=30),
                     lambda: _enf_part("enforce", ENF_CONFIGS[tier], tier, seed, rng, sc, enf_bin,
-                                      walks=2000 if thorough else 0, depth=30)]
+                                      walks=2000 if thorough else 0, depth=30),
+                    lambda: _enf_part("enforce-skew", SKEW_CONFIGS[tier], tier, seed, rng, sc, enf_bin,
+                                      walks=1000 if thorough else 0, depth=30, env=SKEW_ENV)]
             if thorough:
                 plan.append(lambda: _store_part("store-wide", WIDE_CONFIG, tier, seed, rng, sc, store_bin,
                                                 env={"VERIF_SOON": "1"}))
                 plan.append(lambda: _store_part("store-timed", TIMED_CONFIG, tier, seed, rng, sc, store_bin,
                                                 max_len=24, env={"VERIF_PAR": "48", "VERIF_SOON": "0"}))
             only = os.environ.get("VERIF_C13_PARTS")      # self-test aid: run a subset of the parts
-            names = ["store-conc", "store", "enforce-window", "enforce"] + \
+            names = ["store-conc", "store", "enforce-window", "enforce", "enforce-skew"] + \
                 (["store-wide", "store-timed"] if thorough else [])
             for nm, step in zip(names, plan):
                 if only and nm not in only.split(","):
